@@ -14,11 +14,12 @@ from ..surface import T
 
 LEVEL = "exploration"
 
-PRELUDE = "struct S0(a: int)\nstruct Z9(z: int)\n"
+PRELUDE = "struct S0(a: int)\nstruct Z9(z: int)\nstruct Pair<A, B>(a: A, b: B)\n"
 # concrete argument types: (source of the type, a term of it)
 ARGS = {
     "int": "1", "str": "'a'", "bool": "true", "float": "1.5", "S0": "S0(1)", "Sequence<int>": "[1, 2]", "Sequence<str>": "['a']", "Optional<int>": "some(1)",
-    "(int, str)": "(1, 'a')", "Sequence<Sequence<int>>": "[[1]]",
+    "(int, str)": "(1, 'a')", "Sequence<Sequence<int>>": "[[1]]", "(int, str, float)": "(1, 'a', 2.5)", "(int)": "(1,)", "(int, int)": "(1, 2)",
+    "Pair<int, str>": "Pair(1, 'a')", "Pair<str, int>": "Pair('a', 1)", "Pair<int, int>": "Pair(1, 2)",
 }       # fully known types only (the property's quantifier): with a bottom-typed argument the implementation deliberately prefers generic candidates
 
 
@@ -119,11 +120,11 @@ def default_for(t):
     if t in ("Optional<T>", "Optional<U>"):
         return "none()"
     return {"int": "0", "str": "'d'", "bool": "false", "float": "0.5", "S0": "S0(0)", "Sequence<int>": "[0]", "Sequence<str>": "['d']", "Optional<int>": "none()", "(int, str)": "(0, 'd')",
-            "Sequence<Sequence<int>>": "[]"}[t]
+            "Sequence<Sequence<int>>": "[]", "(int, str, float)": "(0, 'd', 0.5)", "(int, int)": "(0, 0)", "Pair<int, str>": "Pair(0, 'd')", "Pair<str, int>": "Pair('d', 0)"}[t]
 
 
-CONCRETE = ["int", "str", "bool", "float", "S0", "Sequence<int>", "Sequence<str>", "Optional<int>", "(int, str)"]
-GENERIC = ["T", "Sequence<T>", "Optional<T>", "(T, U)", "(T, T)", "Sequence<Sequence<T>>", "U"]
+CONCRETE = ["int", "str", "bool", "float", "S0", "Sequence<int>", "Sequence<str>", "Optional<int>", "(int, str)", "(int, str, float)", "(int, int)", "Pair<int, str>", "Pair<str, int>"]
+GENERIC = ["T", "Sequence<T>", "Optional<T>", "(T, U)", "(T, T)", "Sequence<Sequence<T>>", "U", "Pair<T, U>", "Pair<T, T>", "Pair<T, int>", "(T, U, T)"]
 
 
 def rand_overload(rng, tag, arity_hint):
@@ -245,6 +246,17 @@ def make_cases(ctx):
             src = rng.choice(ovs)
             dup = Ov(list(src.params) + ([(rng.choice(CONCRETE), True)] if rng.random() < 0.6 else []), src.generics, 7001 + len(ovs))
             ovs.append(dup)
+        twice = (not libname) and rng.random() < 0.15
+        if twice:
+            # one type parameter at two argument positions (directly or nested), next to a two-parameter sibling: the candidate only matches
+            # when both arguments agree, component for component and in length
+            shape = rng.choice([("T", "T"), ("Sequence<T>", "T"), ("(T, U)", "T"), ("Pair<T, U>", "Pair<U, T>"), ("Optional<T>", "T")])
+            gens = sorted({g for t in shape for g in ("T", "U") if _has_word(t, g)})
+            ovs = [Ov([(t, False) for t in shape], gens, 7001)]
+            if rng.random() < 0.6:
+                ovs.append(Ov([("A", False), ("B", False)], ("A", "B"), 7002))
+            if rng.random() < 0.4:
+                ovs.append(rand_overload(rng, 7003, 2))
         lib = lib_by_name.get(name, []) if libname else []
         dyn = (name in dynamic) if libname else False
         # call sites
@@ -258,10 +270,13 @@ def make_cases(ctx):
                     if t in CONCRETE:
                         args.append(t if rng.random() < 0.85 else rng.choice(list(ARGS)))
                     else:
-                        args.append(rng.choice(["int", "str", "Sequence<int>", "Optional<int>", "(int, str)", "Sequence<Sequence<int>>"]))
+                        args.append(rng.choice(["int", "str", "Sequence<int>", "Optional<int>", "(int, str)", "Sequence<Sequence<int>>", "(int, str, float)", "(int, int)", "Pair<int, str>", "Pair<str, int>", "Pair<int, int>"]))
             else:
                 args = [rng.choice(list(ARGS)) for _ in range(rng.choice([arity, arity, max(0, arity - 1), arity + 1, 0]))]
             calls.append(args)
+        if twice:
+            fam = ["(int)", "(int, int)", "(int, str)", "(int, str, float)", "Pair<int, str>", "Pair<str, int>", "Pair<int, int>", "int", "Sequence<int>", "Sequence<Sequence<int>>", "Optional<int>"]
+            calls = [[rng.choice(fam), rng.choice(fam)] for _ in range(4)]
         if any(all(op for _, op in o.params) for o in ovs):
             calls.append([])            # a zero-argument call whenever some overload can take it
         for args in calls:
